@@ -111,10 +111,15 @@ class Exec:
         for w, where in self.words:
             self.trace.append(apply_insn(w, self.regs, self.literals, where))
 
+    def run_with(self, f, args, env0, overrides):
+        self.env0 = dict(env0)
+        self.overrides = dict(overrides)
+        self.run(f, args)
+
     def run(self, f, args, depth=0):
         if depth > 3:
             raise AnalysisBroken('A64-IMMHELP: helper recursion')
-        ev = KBEval(self.F, {})
+        ev = KBEval(self.F, dict(getattr(self, 'env0', {}) if depth == 0 else {}), 0, getattr(self, 'overrides', None))
         for p, a in zip(f['params'], args):
             if a is not None:
                 ev.env[p['id']] = a
@@ -157,6 +162,7 @@ class Exec:
                     args.append(ev.ev(a) if type_info(prm['ty']) is not None else None)
                 ev.env['this->num32bitLiterals'] = KB.const(32, self.nlit)
                 sub = Exec(self.F, self.cls, self.regs, self.literals, self.nlit)
+                sub.overrides = getattr(self, 'overrides', None)
                 sub.run(g, args, depth + 1)
                 self.words += sub.words
                 self.nlit = sub.nlit
